@@ -45,11 +45,15 @@ func main() {
 	explain := flag.String("explain", "", "replay file to explain: re-runs that obligation on the current tree")
 	listRules := flag.Bool("list", false, "list properties and rules")
 	manifest := flag.Bool("manifest", false, "print MANIFEST.json for the registered properties")
+	evalAll := flag.Bool("eval", false, "load once, run every rule, print which properties fire (used to evaluate variants)")
 	normDump := flag.Bool("normalize-dump", false, "print the normalised (helper-inlined) source files and the report")
 	flag.Parse()
 	if *manifest {
 		emitManifest()
 		return
+	}
+	if *evalAll {
+		os.Exit(doEvalAll(rc))
 	}
 	if *normDump {
 		ov, rep := normalizeOverlay(rc.repo, "", nil)
@@ -357,4 +361,49 @@ func doExplain(rc runConfig, path string) int {
 		fmt.Println("on the current tree: no obligation with this key (the construct no longer exists or the rule is silent)")
 	}
 	return rcode
+}
+
+// doEvalAll loads the tree once, runs every registered rule once and reports per property.
+func doEvalAll(rc runConfig) int {
+	overlay, _ := normalizeOverlay(rc.repo, "", nil)
+	P, err := Load(rc.repo, "", overlay, false)
+	if err != nil {
+		fmt.Printf("load-error: %v\n", err)
+		for _, id := range allPropertyIDs {
+			if properties[id] != nil {
+				fmt.Printf("== %s FIRES\nundecided load-error@tree at -: %v\n", id, err)
+			}
+		}
+		return 1
+	}
+	results := map[string]*RuleResult{}
+	for _, id := range sortedKeys(ruleRegistry) {
+		results[id] = runRule(P, ruleRegistry[id])
+	}
+	fired := 0
+	for _, id := range allPropertyIDs {
+		spec := properties[id]
+		if spec == nil {
+			continue
+		}
+		var lines []string
+		for _, rid := range spec.Rules {
+			for _, o := range results[rid].Obligations {
+				if o.Verdict != Discharged {
+					lines = append(lines, fmt.Sprintf("%s %s at %s: %s", o.Verdict, o.Key(), o.Pos, o.Detail))
+				}
+			}
+		}
+		if len(lines) > 0 {
+			fired++
+			fmt.Printf("== %s FIRES\n", id)
+			for _, l := range lines {
+				fmt.Println(l)
+			}
+		}
+	}
+	if fired == 0 {
+		fmt.Println("== NO CHECK FIRES")
+	}
+	return 0
 }
